@@ -19,7 +19,8 @@ func init() {
 			"D3 both ends are the same end: insertion at slot 0 of the value parameter, removal of index 1, views delegate to the storage unchanged; " +
 			"D4 the storage is mutated only by AddValue->InsertValue, RemoveTop->RemoveValue and RemoveAll->RemoveAll." +
 			" Also: the storage of a new stack is made by the constructor, never adopted from an argument; no function creates a stack and pushes more values than the capacity it gave it." +
-			" Round 7: RemoveAll clears on every path that is not selected by an emptiness test (conditions are resolved through tuple and named results of helpers).",
+			" Round 7: RemoveAll clears on every path that is not selected by an emptiness test (conditions are resolved through tuple and named results of helpers)." +
+			" Rounds 8-9: readers assign no field; a capacity is not compared after conversion to a signed integer; a slice made with a length is not only appended to.",
 		NotDecided: "LIFO order over histories (rests on the list's element placement, C01 not-decided part).",
 		Run:        runC13,
 	})
